@@ -58,6 +58,15 @@ PROPS["C19"] = dict(
          "exhaustive: every list up to depth 2 over (plain text, JSON-like text, inner GRPCWrap, Join with a side error) x 10 classes x embedding level x 75 messages (3 per kind: empty, populated with hard texts/bytes/extreme numbers, small) x (fresh message + 6 owned kinds), a sixth of the combinations at depth 2; "
          "rapid: one embedded object in four, half of them from the kinds with sub-messages of well-known types; batches put the chain's position into the message. Length targets of such chains pad wrap texts only; object-size targets do not apply. Verified first that the unchanged library round-trips all 25 kinds at every stage. "
          "Not covered: messages with oneof fields of interface type (encoding/json cannot decode into them - outside what EmbedObject/ExtractObject promise), re-use of one message variable across extractions (json.Unmarshal merges into a used struct), proto2 / unknown fields / extensions. "
+         "LITERAL OBJECTS (JSON text that is not a {...} object): EmbedObject takes any non-nil interface value json.Marshal accepts, so the embedded object may be a value whose JSON text is the bare null - through every Go shape that marshals to it and that EmbedObject accepts "
+         "(verified on the unchanged tree: only the untyped nil interface is refused): typed nil pointer to struct / int64 / string, nil slice, nil map, nil json.RawMessage, json.RawMessage(\"null\") also with surrounding white space, pointer to a nil interface, a json.Marshaler that writes null (value, nil pointer to it, a nullable-number type that also decodes null itself) - "
+         "or true / false, 0, -0, int64 / uint64 extremes, float64 extremes and 5e-324, json.Number of hundreds of digits or with exponents beyond float64 (1e400), \"\", the strings \"null\" \"true\" \"0\" \"[]\" \"{}\" \"[null]\" ' null ' \"nullnull\" \"NULL\" and the six-character-escape spelling of null, [] and {} (empty non-nil slice / map, empty struct), "
+         "[null] ([]any / []*int64), {\"a\":null} (map of any / of pointers, a struct whose pointer, slice, map, interface, RawMessage and struct-pointer fields are all nil), [\"null\"], {\"null\":\"null\"}, raw JSON texts built from these with white space. Plain data in the case: shape name + parameter text (27 shapes). "
+         "At every stage (result of EmbedObject, finished chain, GRPCWrap, second GRPCWrap) ExtractObject into a ZERO target of the value's own Go type must return true and leave the target reflect.DeepEqual and json.Marshal-equal to a target prepared in the same way and handed to json.Unmarshal together with the JSON text EmbedObject wrote (nothing of encoding/json's null rules is modelled); "
+         "extraction-target kinds of such a chain: a USED target of the own type (pointer to other content, filled slice with spare capacity, map with other keys, struct with every field set, non-empty RawMessage ...: null resets a pointer / slice / map / interface and leaves a struct or number alone, a map target keeps its other keys - whatever json.Unmarshal does), "
+         "*any fresh and *any that held a map, and the re-used *json.RawMessage (nil / with spare capacity) and []byte Unmarshaler of the other objects (both then overwritten by the caller). A target that cannot take the text under encoding/json itself (number beyond float64 into interface{}) asserts nothing; RawMessage / Unmarshaler targets must then hold the text itself. "
+         "exhaustive: every list up to depth 2 over (plain text, JSON-like text, inner GRPCWrap, Join with a side error) x 10 classes x embedding level x 79 literal objects x (zero target + 6 kinds), an eighth (thorough: half) of the combinations at depth 2; rapid: one embedded object in six, half of them null shapes, parameter texts half fixed half drawn (numbers of up to 60+30 digits with exponents, strings and raw JSON built around the literals). "
+         "Literal objects of a batch need not be distinct; length targets pad wrap texts only. Classes object_json_is_null, object_json_is_bare_bool/number/string, object_json_is_empty_container, object_json_holds_null_inside_a_container, object_json_holds_the_word_null_in_a_string, literal_shape:*, literal_object_extracted_into_*. "
          "RAW BYTES: error texts and object strings are Go strings, not necessarily UTF-8. Inside a case every text is valid UTF-8 and a rune U+F780..U+F7FF stands for the raw byte 0x80..0xFF (so the JSON form of the case is exact); the library gets the decoded bytes. "
          "Wrap texts, side texts, object strings / keys and code messages may hold invalid bytes (Latin-1, lone continuation bytes, truncated sequences, surrogates, overlong forms, 0xFF) and genuine U+FFFD characters "
          "(one rapid chain in six draws two thirds of its texts from such pieces, so that raw bytes in the wrapping meet U+FFFD in the object's JSON text; exhaustive: 4 raw styles, 2 raw objects in the section above, 2 raw code messages). "
@@ -76,6 +85,8 @@ PROPS["C19"] = dict(
                  "renders and yields afterwards (errors are immutable values; encoding/json copies what it decodes and asks the same of an Unmarshaler)",
                  "a generated protobuf message is an ordinary object for EmbedObject/ExtractObject (a struct with json tags, encoded and decoded by encoding/json, as documented): its encoding/json form, not the canonical protobuf JSON form, is what travels in the error text; "
                  "'the same object' for a message is proto.Equal (nil and empty repeated/bytes fields coincide, an absent and an empty sub-message do not) plus an identical json.Marshal text",
+                 "an object whose JSON text is null (typed nil pointer, nil slice / map ...) or another bare literal is an embedded object like any other: EmbedObject documents only 'non-nil object' (the interface) and json-marshalling, ExtractObject documents json-unmarshalling into o; "
+                 "'extractable' for it means ExtractObject returns true and the target - zero or used - ends up as json.Unmarshal of the embedded text leaves it",
                  "for objects whose strings are not valid UTF-8 'the same object' means the object the library extracts right after EmbedObject (JSON cannot carry the invalid bytes)",
                  "'any chain of wrapping around it' is read to include the standard library's other %w forms (several %w verbs, errors.Join) "
                  "as long as the class is the only class in the tree, and chains in which GRPCWrap (idempotent by the statement) was already "
